@@ -456,6 +456,21 @@ def _parse_multiplicity(strings, substance_keys=None):
     return result
 
 
+def _is_inactive_group(term):
+    """True for '(n X)': a term whose leading parenthesis is closed by its last character.
+
+    Keys such as '(NH4)2SO4' also start with '(' but are ordinary (active) species.
+    """
+    if not term.startswith("("):
+        return False
+    depth = 0
+    for idx, char in enumerate(term):
+        depth += (char == "(") - (char == ")")
+        if depth == 0:
+            return idx == len(term) - 1
+    return False
+
+
 def to_reaction(line, substance_keys, token, Cls, globals_=None, **kwargs):
     """Parses a string into a Reaction object and substances
 
@@ -512,12 +527,12 @@ def to_reaction(line, substance_keys, token, Cls, globals_=None, **kwargs):
     for elements in reac_prod:
         act.append(
             _parse_multiplicity(
-                [x for x in elements if not x.startswith("(")], substance_keys
+                [x for x in elements if not _is_inactive_group(x)], substance_keys
             )
         )
         inact.append(
             _parse_multiplicity(
-                [x[1:-1] for x in elements if x.startswith("(") and x.endswith(")")],
+                [x[1:-1] for x in elements if _is_inactive_group(x)],
                 substance_keys,
             )
         )
